@@ -31,7 +31,11 @@ RULE = (
     "probes with a cross-probe time tie, or >=3 probes, or unequal spike counts, or a TSV present "
     "in some probes only. In half of the cases the same probe directories are merged a second time "
     "in the same process (same or reversed order, or merge() called again on the same Merger) and "
-    "verified again.")
+    "verified again."
+    ' Later additions: relative probe paths, merge() again on the same Merger, a failed merge() f'
+    'ollowed by a retry on the same object, sessions one after the other, (1, n) channel vectors,'
+    ' mixed template dtypes, 2**18+ / 1.1 million merged spikes, one probe with 9 million spikes '
+    '(72 MiB input files).')
 ASSUMPTIONS = ['merging requires amplitudes.npy, pc_feature_ind.npy, template_feature_ind.npy and '
                'spike_clusters.npy in every probe (KiloSort always writes them)']
 
